@@ -106,7 +106,7 @@ CLAIMED["C16"] = {
   "technique": "Coq proof (stack-machine syntax checker, induction over the traversal) + bash -n / structural validation",
 }
 CLAIMED["C06"] = {
-  "text": "Theorem (bound = the table): for each of the 2344 entries of the position x offered-type x context table the model of the whole pipeline accepts "
+  "text": "Theorem (bound = the table): for each of the 2425 entries of the position x offered-type x context table the model of the whole pipeline accepts "
           "for both targets exactly when the typing rules allow it, and rejects for both otherwise - decided inside Coq by vm_compute and lifted with "
           "forallb_forall; the recorded findings are stated as C06_known_refuted. The same table and generated single-position mutants are run through "
           "the implementation (both converters) and must agree with the rules and with the model.",
